@@ -468,6 +468,7 @@ func ruleC06DistinctLoop(c *Ctx) {
 			}
 		}
 		if seenKey == nil {
+			why = append(why, "an iteration completes without consulting the set of fingerprints seen so far (a row is kept or dropped without being compared with earlier rows)")
 			continue
 		}
 		// the fingerprint depends on the whole row
